@@ -215,7 +215,7 @@ Section Framed.
   Proof.
     intros x b. unfold fdrain at 1. simpl.
     destruct (step x b) as [ev x' r| |ev] eqn:Hs; try reflexivity.
-    pose proof (emit_shrinks Hs). unfold fdrain. rewrite (drain_fuel_enough (length b) (S (length r))) by lia.
+    pose proof (emit_shrinks Hs). unfold fdrain. rewrite drain_fuel_enough with (m := S (length r)) by lia.
     reflexivity.
   Qed.
 
